@@ -8,4 +8,5 @@ UNITS = {
             dict(file="rig/place_and_route/allocate/utils.py", name="align",
                  coq="align", params={"value": "Z", "alignment": "Z"}, ret="Z"),
         ]),
+    "GenWrapper": dict(props=["C05"], dumper="dump_c05w.py"),
 }
